@@ -60,7 +60,7 @@ var allowedPkgs = map[string]bool{
 	"unicode/utf8": true, "bytes": true, "math/bits": true, "internal/bytealg": false,
 	"cmp": true, "maps": true, "internal/stringslite": true, "unicode": true,
 	"crypto/subtle": true, "internal/byteorder": true, "crypto/internal/fips140/subtle": true,
-	"crypto/internal/constanttime": true, "io/fs": true, "io": true,
+	"crypto/internal/constanttime": true, "io/fs": true, "io": true, "sync/atomic": true,
 }
 
 func (p *Program) allowed(path string) bool { return allowedPkgs[path] }
